@@ -75,7 +75,7 @@ func scenario(c *core.Ctx, r *core.Result, idx int, rng *rand.Rand, isolated boo
 	rec := &live.Recorder{} // (callbacks are also recorded; the oracle uses its own lists)
 	tag := fmt.Sprintf("%dx%d", idx, rng.Intn(1<<20))
 	accPort := live.FreePort()
-	A := &side{name: "acceptor", opts: live.Options{Who: "acceptor", Begin: "FIX.4.2", Sender: "ACC" + tag, Target: "INI" + tag, Port: accPort, StoreKind: sc.Store, StoreDir: dir, R: rec}}
+	A := &side{name: "acceptor", opts: live.Options{Who: "acceptor", Begin: "FIX.4.2", Sender: "ACC" + tag, Target: "INI" + tag, Port: accPort, StoreKind: sc.Store, StoreDir: dir, R: rec, Extra: map[string]string{"LogonTimeout": "2"}}}
 	var err error
 	for try := 0; try < 3; try++ {
 		if A.eng, err = live.StartAcceptor(A.opts); err == nil {
@@ -92,20 +92,30 @@ func scenario(c *core.Ctx, r *core.Result, idx int, rng *rand.Rand, isolated boo
 		return "inconclusive: proxy: " + err.Error()
 	}
 	defer px.Close()
-	I := &side{name: "initiator", init: true, opts: live.Options{Who: "initiator", Begin: "FIX.4.2", Sender: "INI" + tag, Target: "ACC" + tag, Port: pxPort, StoreKind: sc.Store, StoreDir: dir, R: rec}}
+	I := &side{name: "initiator", init: true, opts: live.Options{Who: "initiator", Begin: "FIX.4.2", Sender: "INI" + tag, Target: "ACC" + tag, Port: pxPort, StoreKind: sc.Store, StoreDir: dir, R: rec, Extra: map[string]string{"LogonTimeout": "2"}}}
 	if I.eng, err = live.StartInitiator(I.opts); err != nil {
 		A.eng.Stop()
 		return "inconclusive: cannot start initiator: " + err.Error()
 	}
 	sides := []*side{I, A}
 	defer func() {
-		for _, s := range sides {
-			s.mu.Lock()
-			e := s.eng
-			s.mu.Unlock()
-			if e != nil {
-				e.Stop()
+		// (an engine whose session goroutine is wedged never stops: give up on it after a while, the child process ends anyway)
+		done := make(chan struct{})
+		go func() {
+			for _, s := range sides {
+				s.mu.Lock()
+				e := s.eng
+				s.mu.Unlock()
+				if e != nil {
+					e.Stop()
+				}
 			}
+			close(done)
+		}()
+		select {
+		case <-done:
+		case <-time.After(10 * time.Second):
+			r.Count("harness.engine_did_not_stop", 1)
 		}
 	}()
 	hook := func(s, other *side) {
@@ -137,14 +147,17 @@ func scenario(c *core.Ctx, r *core.Result, idx int, rng *rand.Rand, isolated boo
 				m.Body.SetString(38, "1")
 				m.Body.SetString(40, "1")
 				m.Body.SetString(60, "20260925-10:00:00")
+				// (the lock is not held across the call: a wedged engine must not wedge the oracle; one sender per side keeps the order)
 				s.mu.Lock()
 				e := s.eng
+				s.mu.Unlock()
 				if e != nil {
 					if err := quickfix.SendToTarget(m, e.SID); err == nil {
+						s.mu.Lock()
 						s.sent = append(s.sent, id)
+						s.mu.Unlock()
 					}
 				}
-				s.mu.Unlock()
 				time.Sleep(time.Duration(rr.Intn(sc.Pace)) * time.Millisecond)
 			}
 		}(si, s, rand.New(rand.NewSource(rng.Int63())))
@@ -172,7 +185,14 @@ func scenario(c *core.Ctx, r *core.Result, idx int, rng *rand.Rand, isolated boo
 			old := s.eng
 			s.eng = nil
 			s.mu.Unlock()
-			old.Stop()
+			stopped := make(chan struct{})
+			go func() { old.Stop(); close(stopped) }()
+			select {
+			case <-stopped:
+			case <-time.After(60 * time.Second):
+				atomic.StoreInt32(&stopSend, 1)
+				return "inconclusive: the engine to be restarted did not stop within 60 s"
+			}
 			time.Sleep(time.Duration(rng.Intn(300)) * time.Millisecond)
 			var ne *live.Engine
 			var err error
@@ -189,7 +209,6 @@ func scenario(c *core.Ctx, r *core.Result, idx int, rng *rand.Rand, isolated boo
 			}
 			if err != nil {
 				atomic.StoreInt32(&stopSend, 1)
-				wg.Wait()
 				return "inconclusive: restart failed: " + err.Error()
 			}
 			s.mu.Lock()
@@ -198,10 +217,20 @@ func scenario(c *core.Ctx, r *core.Result, idx int, rng *rand.Rand, isolated boo
 			s.mu.Unlock()
 		}
 	}
-	wg.Wait()
 	px.ResetHB()
+	sendersDone := make(chan struct{})
+	go func() { wg.Wait(); close(sendersDone) }()
 	t0 := time.Now()
+	sendersFinished := false
 	for {
+		if !sendersFinished {
+			select {
+			case <-sendersDone:
+				sendersFinished = true
+				px.ResetHB() // the stable period starts when the last message has been submitted
+			default:
+			}
+		}
 		var got, sent [2][]string
 		for i, s := range sides {
 			s.mu.Lock()
@@ -247,7 +276,7 @@ func scenario(c *core.Ctx, r *core.Result, idx int, rng *rand.Rand, isolated boo
 				ok = false
 			}
 		}
-		if ok {
+		if ok && sendersFinished {
 			if atomic.LoadInt64(&px.Cuts) > 0 && atomic.LoadInt64(&px.RR[0])+atomic.LoadInt64(&px.RR[1]) > 0 {
 				r.Nontrivial(fmt.Sprintf("%v|%s|cuts%d", sc.Faults, sc.Store, atomic.LoadInt64(&px.Cuts)))
 			}
@@ -264,9 +293,14 @@ func scenario(c *core.Ctx, r *core.Result, idx int, rng *rand.Rand, isolated boo
 			}
 			return "held"
 		}
-		if atomic.LoadInt64(&px.HB[0]) >= 6 && atomic.LoadInt64(&px.HB[1]) >= 6 {
+		if sendersFinished && atomic.LoadInt64(&px.HB[0]) >= 6 && atomic.LoadInt64(&px.HB[1]) >= 6 {
 			return fmt.Sprintf("violation: lost: after the link was stable for 6 Heartbeats in each direction the %s application has %d of %d messages and the %s application %d of %d (%s); missing %v / %v",
 				sides[1].name, len(got[1]), len(sent[0]), sides[0].name, len(got[0]), len(sent[1]), sc, missing(sent[0], got[1]), missing(sent[1], got[0]))
+		}
+		if n := px.ConnsSinceReset(); n >= 8 && atomic.LoadInt64(&px.Logons[1]) == 0 {
+			// a logical clock of its own: connection attempts are at least a second apart
+			return fmt.Sprintf("violation: never-reconnects: since the faults stopped %d connections went through the link, the initiator sent %d Logons and the acceptor answered none: the %s application has %d of %d messages and the %s application %d of %d (%s)",
+				n, atomic.LoadInt64(&px.Logons[0]), sides[1].name, len(got[1]), len(sent[0]), sides[0].name, len(got[0]), len(sent[1]), sc)
 		}
 		if time.Since(t0) > 150*time.Second {
 			return fmt.Sprintf("inconclusive: watchdog: heartbeats %d/%d, delivered %d/%d and %d/%d (%s)", atomic.LoadInt64(&px.HB[0]), atomic.LoadInt64(&px.HB[1]), len(got[1]), len(sent[0]), len(got[0]), len(sent[1]), sc)
